@@ -11,6 +11,7 @@
    which fix their site lists); "never registers" at run time is monitored on the implementation. *)
 From AL Require Import Base Api Mutex MutexApi Semaphore SemApi RwLock RwApi MutexInv SemCount RwInv.
 From AL.Tie Require Tie_Mutex Tie_Semaphore Tie_Raw Tie_RwLock Tie_RwFutures.
+From AL.Sched Require RwSched RwSchedConv SemSched MutexSched.
 
 Theorem C14_try_lock_exact : forall (ops : list mop) arc,
   N.of_nat (length ops) < MutexInv.OPS_BOUND -> m_handles (mrun ops) <> 0%nat ->
@@ -75,6 +76,42 @@ Example C14_nonvacuous :
   o_res (snd (rstep x (RTry KWrite false))) = RNone /\ o_res (snd (rstep x (RTry KRead false))) = RSome 2%nat.
 Proof. vm_compute. repeat split. Qed.
 
+(* ---------- schedule half ("never succeeds in conflict"): every interleaving of the atomic operations ---------- *)
+(* On the word-level machines of C02_excl_sched / C03_conserve_sched (any number of threads, every schedule, the
+   compare_exchange of a try_* attempted with ANY expected value, however stale): a try_* that changes anything found no
+   conflict at that very instant. (For the Mutex this is C01_excl_sched: the word is the lock.) *)
+Theorem C14_try_write_sched : forall (n : nat) (sched : list (nat * RwSched.raction)) (i : nat),
+  let g := RwSched.rrun_s n sched in
+  RwSched.rstep g i RwSched.RTryWriteCas <> g ->
+  RwSched.cnt RwSched.fR (RwSched.rg_thr g) = 0 /\ RwSched.cnt RwSched.fU (RwSched.rg_thr g) = 0 /\ RwSched.cnt RwSched.fA (RwSched.rg_thr g) = 0 /\ RwSched.cnt RwSched.fW (RwSched.rg_thr g) = 0.
+Proof. exact RwSchedConv.rw_sched_try_write_exact. Qed.
+Theorem C14_try_upgrade_sched : forall (n : nat) (sched : list (nat * RwSched.raction)) (i : nat),
+  let g := RwSched.rrun_s n sched in
+  RwSched.rstep g i RwSched.RTryUpgrade <> g ->
+  RwSched.cnt RwSched.fR (RwSched.rg_thr g) = 0 /\ RwSched.cnt RwSched.fU (RwSched.rg_thr g) = 1 /\ RwSched.cnt RwSched.fA (RwSched.rg_thr g) = 0.
+Proof. exact RwSchedConv.rw_sched_try_upgrade_exact. Qed.
+Theorem C14_try_read_sched : forall (n : nat) (sched : list (nat * RwSched.raction)) (i : nat) (c : N),
+  let g := RwSched.rrun_s n sched in
+  RwSched.rstep g i (RwSched.RReadCas c) <> g ->
+  RwSched.cnt RwSched.fA (RwSched.rg_thr g) = 0 /\ RwSched.cnt RwSched.fW (RwSched.rg_thr g) = 0.
+Proof. exact RwSchedConv.rw_sched_try_read_exact. Qed.
+Theorem C14_try_upgradable_read_sched : forall (n : nat) (sched : list (nat * RwSched.raction)) (i : nat) (c : N),
+  let g := RwSched.rrun_s n sched in
+  RwSched.rstep g i (RwSched.RUpCas c) <> g ->
+  RwSched.cnt RwSched.fU (RwSched.rg_thr g) = 0 /\ RwSched.cnt RwSched.fA (RwSched.rg_thr g) = 0 /\ RwSched.cnt RwSched.fW (RwSched.rg_thr g) = 0.
+Proof. exact RwSchedConv.rw_sched_try_upgradable_exact. Qed.
+Theorem C14_try_acquire_sched : forall (init : N) (n : nat) (sched : list (nat * SemSched.saction)) (i : nat) (c : N),
+  let g := SemSched.srun init n sched in
+  SemSched.sstep g i (SemSched.SCas c) <> g ->
+  0 < SemSched.sg_count g /\ SemSched.sg_count (SemSched.sstep g i (SemSched.SCas c)) = SemSched.sg_count g - 1.
+Proof. exact SemSched.sem_sched_try_acquire_exact. Qed.
+
+Example C14_sched_nonvacuous :
+  let g := RwSched.rrun_s 2 [(0, RwSched.RMutexLock)]%nat in
+  RwSched.rstep g 0 RwSched.RTryWriteCas <> g /\ RwSched.rstep (RwSched.rrun_s 2 [(1, RwSched.RReadCas 0); (0, RwSched.RMutexLock)]%nat) 0 RwSched.RTryWriteCas =
+    RwSched.rrun_s 2 [(1, RwSched.RReadCas 0); (0, RwSched.RMutexLock)]%nat.
+Proof. split; [vm_compute; discriminate | vm_compute; reflexivity]. Qed.
+
 Print Assumptions C14_try_lock_exact.
 Print Assumptions C14_try_acquire_exact.
 Print Assumptions C14_try_read_exact.
@@ -82,3 +119,8 @@ Print Assumptions C14_try_upgradable_read_exact.
 Print Assumptions C14_try_write_exact.
 Print Assumptions C14_try_upgrade_exact.
 Print Assumptions C14_free_lock_succeeds.
+Print Assumptions C14_try_write_sched.
+Print Assumptions C14_try_upgrade_sched.
+Print Assumptions C14_try_read_sched.
+Print Assumptions C14_try_upgradable_read_sched.
+Print Assumptions C14_try_acquire_sched.
